@@ -105,6 +105,29 @@ pub fn exec_more(t: &[&str]) -> R {
                 Ok(format!("rt={} len={} keylen={} blob={}", ok as u8, crate::gen_tok::unb64(body).len(), canon.len(), hex(s.as_bytes())))
             }, else Err(bad())))
         }
+        // wrap with this back end (own randomness) using the donor's parameters; if it agrees to wrap, every back end of the
+        // version must unwrap the result to the same key (the blob is what the specification prescribes for the embedded parameters)
+        "o.pw.cross" => {
+            let (b, k, pass, donor, key) = (be(1)?, kd(2)?, hx(3)?, st(4)?, hx(5)?);
+            let wrapped: Option<String> = with_v!(b, V => with_sealing_kind!(k, K => {
+                let key0 = key_of::<V, K>(&key).map_err(|e| format!("key-{}", en(e)))?;
+                match PasswordWrappedKey::<V, K>::from_str(&donor).and_then(|d| d.params()) {
+                    Err(_) => None,
+                    Ok(p) => key0.password_wrap_with_params(&pass, &p).ok().map(|w| w.to_string()),
+                }
+            }, else return Err(bad())));
+            let Some(s) = wrapped else { return Ok("refused".to_string()) };
+            let canon = with_v!(b, V => with_sealing_kind!(k, K => key_of::<V, K>(&key).map_err(en)?.expose_key().as_raw_bytes().to_vec(), else return Err(bad())));
+            let mut fails = vec![];
+            for b2 in ALL_BE {
+                if b2.version() != b.version() { continue; }
+                let got: Result<Vec<u8>, String> = with_v!(b2, V => with_sealing_kind!(k, K => {
+                    PasswordWrappedKey::<V, K>::from_str(&s).map_err(en).and_then(|w| w.unwrap(&pass).map_err(en)).map(|x| x.expose_key().as_raw_bytes().to_vec())
+                }, else Err(bad())));
+                if got.as_deref() != Ok(&canon[..]) { fails.push(format!("{}:{}", b2.name(), got.err().unwrap_or("wrong-key".into()))); }
+            }
+            Ok(format!("wrapped cross={} {} blob={}", fails.is_empty() as u8, fails.join(","), hex(s.as_bytes())))
+        }
         "o.seal.rt" => {
             let (b, sk, pk, key) = (be(1)?, hx(2)?, hx(3)?, hx(4)?);
             with_v!(b, V => {
